@@ -58,6 +58,19 @@ CHECKS = {
        "outputs for two directory creation orders on tmpfs and ext4. heap.h is driven in-process under ASan+UBSan with "
        "a structural walk (links, complete shape, order) after every operation.",
   note="ovnidump applies no offsets (raw clocks checked). Tie order is left free, as in the statement."),
+ "C06": dict(
+  cat="exploration", ref="DESIGN.md section 3, C06",
+  technique="runtime monitoring: random legal histories over all models through the real ovniemu; every Paraver row reconstructed and compared per event with reference views built from a frozen event table",
+  text="Random histories that the reference model accepts - value changes on every channel of every model (stack, "
+       "single, task, mark, idle, kernel) interleaved with pause/resume/cool/warm, local and remote affinity changes and "
+       "2-3 threads taking turns on shared CPUs, with unique clocks and with equal clocks inside a thread - are emulated "
+       "by the real ovniemu (thorough: a share on the ASan+UBSan build). Every (row,type) step function of thread.prv "
+       "and cpu.prv is compared after each event with the reference view: thread row = raw value gated by the type's "
+       "tracking mode; CPU row = value of the unique running thread, else nothing (or the idle default). Values are "
+       "compared by .pcf label against the frozen table spec/events.json.",
+  note="Only histories the model itself accepts are generated, so the verdict never depends on the accept/reject "
+       "boundary. spec/events.json was characterised once on the unchanged tree and reviewed against the event "
+       "descriptions."),
 }
 
 NOT_YET = "check not implemented yet in this revision (work in progress, see DESIGN.md section 3)"
